@@ -119,12 +119,14 @@ def valid_tables(out, tag, mu, keys, total):
 def run_case(case):
     mbi = import_mbi()
     out = Out()
-    attrs, shape = list(case['domain']['attrs']), list(case['domain']['shape'])
+    # attribute names are multi-character strings built at run time, separately for the domain and for the cliques:
+    # equal names, distinct string objects (as when a domain is loaded from JSON and cliques are typed as literals)
+    attrs, shape = ['%s_%s' % (a, 'attr') for a in case['domain']['attrs']], list(case['domain']['shape'])
     sizes = dict(zip(attrs, shape))
     domain = mbi.Domain(attrs, shape)
     total = float(case['total'])
     mode = case['mode']
-    cliques = [tuple(c) for c in case['cliques']]
+    cliques = [tuple('%s_%s' % (a, 'attr') for a in c) for c in case['cliques']]
     rng = np.random.Generator(np.random.PCG64(case['seed']))
     out.classes = ['mode:' + mode]
 
